@@ -93,8 +93,11 @@ func (wd *View) CheckStore(m *model.Store, inflight *model.Block, inflightIface 
 			wantDay = &model.Day{}
 		}
 		var first *DayContent
-		for mode := 0; mode < 2; mode++ {
-			got, err := ReadDay(wd.Path+"/"+k.iface, k.day, names[0], mode, mode)
+		for pass := 0; pass < 3; pass++ {
+			// pass 0: default reader, forward; pass 1: read-all reader, backwards; pass 2: default
+			// reader, zigzag (jumps followed by sequential reads, a block read twice)
+			mode := pass % 2
+			got, err := ReadDay(wd.Path+"/"+k.iface, k.day, names[0], mode, pass)
 			if err != nil {
 				if isInflightDay && len(wantDay.Blocks) == 0 {
 					// a day that holds no committed block yet may be unreadable as such; what
@@ -105,7 +108,7 @@ func (wd *View) CheckStore(m *model.Store, inflight *model.Block, inflightIface 
 				}
 				return nil, "day-unreadable", fmt.Sprintf("iface %s day %d (%s): %v", k.iface, k.day, names[0], err)
 			}
-			if mode == 0 {
+			if pass == 0 {
 				first = got
 			}
 			diff := CompareDay(wantDay, got)
@@ -113,14 +116,14 @@ func (wd *View) CheckStore(m *model.Store, inflight *model.Block, inflightIface 
 				with := &model.Day{Blocks: append(append([]model.Block(nil), wantDay.Blocks...), *inflight)}
 				if d2 := CompareDay(with, got); d2 == "" {
 					diff = ""
-					if mode == 0 {
+					if pass == 0 {
 						seen.Add(k.iface, *inflight)
 						wd.R.Probe("inflight_block_visible")
 					}
 				}
 			}
 			if diff != "" {
-				return nil, "readback-differs", fmt.Sprintf("iface %s day %d (%s, reader mode %d): %s", k.iface, k.day, names[0], mode, diff)
+				return nil, "readback-differs", fmt.Sprintf("iface %s day %d (%s, reader mode %d, read order %d): %s", k.iface, k.day, names[0], mode, pass, diff)
 			}
 		}
 		// the directory-name suffix is what listings use without opening the metadata; a stale one
@@ -247,4 +250,3 @@ func (wd *View) CheckServices(seen *model.Store, mayExtraIface string, withQuery
 	}
 	return nil
 }
-
